@@ -279,7 +279,7 @@ def _isreal_finite(v):
         return False
 
 
-def analyse(sysm, M, bvec, recs, nreset, final_energy=None):
+def analyse(sysm, M, bvec, recs, nreset, final_energy=None, tolerate_divergence=False):
     """Re-evaluate every record with the dense model; checks value/gradient consistency, monotone
     energy, reset behaviour.  M: matrix of the system actually solved, bvec: its rhs.
     Adds to each record: gn, ginf, E, S (gradient slack), SV (value slack)."""
@@ -302,8 +302,12 @@ def analyse(sysm, M, bvec, recs, nreset, final_energy=None):
     for k, r in enumerate(rows):
         x, g = r["x"], r["g"]
         require(x.shape == (n,) and g.shape == (n,), "shape", f"{x.shape} {g.shape}")
-        require(bool(np.all(np.isfinite(x))) and bool(np.all(np.isfinite(g))) and _isreal_finite(r["val"]),
-                "nonfinite_state", f"record {k}: value {r['val']!r}")
+        finite = bool(np.all(np.isfinite(x))) and bool(np.all(np.isfinite(g))) and _isreal_finite(r["val"])
+        if not finite and past_floor and tolerate_divergence:
+            # forced iteration on round-off noise after numerical convergence (see below) overflowed
+            rows[0]["diverged"] = True
+            return rows[:k]
+        require(finite, "nonfinite_state", f"record {k}: value {r['val']!r}")
         Ax = M @ x
         gt = Ax - bvec
         nxk = float(np.linalg.norm(x))
@@ -489,7 +493,14 @@ def check_cg(rec):
     require(len(proxy.recs) >= 1 and proxy.recs[0]["call"] == "start" and proxy.recs[0]["energy"] is e0,
             "controller_not_started", "controller.start was not called with the initial energy")
     require(isinstance(res, ift.QuadraticEnergy), "result_type", type(res).__name__)
-    rows = analyse(sysm, sysm.A, sysm.bvec(), proxy.recs, nreset, final_energy=res)
+    rows = analyse(sysm, sysm.A, sysm.bvec(), proxy.recs, nreset, final_energy=res, tolerate_divergence=True)
+    if rows[0].get("diverged"):
+        # numerically converged, then driven to overflow by round-off-steered steps: CG must not claim more than
+        # the controller allows (ERROR, or CONVERGED at the iteration limit)
+        lim = ic["limit"]
+        require(status == ERROR or (lim is not None and len(proxy.recs) - 1 >= lim), "converged_on_overflow",
+                f"status {status} after {len(proxy.recs) - 1} iterations, limit {lim}")
+        return dict(nontrivial=False, classes=["diverged_past_floor", "ctrl_" + ic["kind"], f"nreset_{nreset}"])
     if proxy.capped:
         if attainable(sysm, ic, rows):
             raise Violation("no_termination", f"{CAP_ITER} iterations without convergence, ic={ic}")
@@ -713,7 +724,8 @@ def check_inversion(rec):
             ng = float(np.linalg.norm(g))
             sl = 4 * (sysm.cm * float(np.linalg.norm(Msys)) * float(np.linalg.norm(yv)) + U * nxin) + 4 * last["S"] \
                 + 64 * sysm.cm * float(np.linalg.norm(Msys)) * float(np.linalg.norm(yv - last["x"]))
-            require(ng <= sl, "cg_converged_nonzero_residual", f"mode {mode}: |res| {ng:.3e} > {sl:.3e}")
+            require(ng <= sl, "inverse_not_a_solution",
+                    f"mode {mode}: CG stopped without the controller, |res| {ng:.3e} > {sl:.3e}")
             classes.append("stop_cg_zero_residual")
             continue
         require(np.array_equal(yv, last["x"]), "result_not_last_position", f"mode {mode}")
@@ -790,6 +802,10 @@ def check_status(rec):
     last = rows[-1]
     if last["call"] == "final" or last["status"] == CONTINUE:
         # CG ended without the controller: only legitimate with a vanishing residual, reported as CONVERGED
+        if yv is None and status == ERROR and last["floor_reached"]:
+            # forced iteration on round-off noise after numerical convergence broke down (curv == 0 / alpha < 0)
+            classes.append("error_past_floor")
+            return dict(nontrivial=False, classes=classes)
         if yv is None:
             require(status == CONVERGED and last["gn"] <= last["S"], "cg_stop_without_controller",
                     f"status {status}, |Ax-b| {last['gn']:.3e}")
@@ -959,16 +975,16 @@ def status_recipes(draw, tier):
 
 
 SUBS = [
-    Sub(name="cg_controllers", check=check_cg, strategy=cg_recipes, quick=12800, thorough=300000, shards=16,
+    Sub(name="cg_controllers", check=check_cg, strategy=cg_recipes, quick=8000, thorough=300000, shards=16,
         rule="non-trivial = (n >= 5 and >= 3 iterations) or (preconditioned and >= 1 iteration) or an iteration "
              "index divisible by nreset was reached (residual reset hit)"),
-    Sub(name="krylov_optimality", check=check_krylov, strategy=krylov_recipes, quick=4800, thorough=100000, shards=8,
+    Sub(name="krylov_optimality", check=check_krylov, strategy=krylov_recipes, quick=3200, thorough=100000, shards=8,
         rule="non-trivial = n >= 4 and >= 3 iterations were compared with the exact Krylov optimum, each of the "
              "first three steps still gaining energy"),
-    Sub(name="inversion_enabler", check=check_inversion, strategy=inversion_recipes, quick=3200, thorough=80000,
+    Sub(name="inversion_enabler", check=check_inversion, strategy=inversion_recipes, quick=2400, thorough=80000,
         shards=8,
         rule="non-trivial = at least one mode is computed iteratively, n >= 3, and (>= 3 iterations or an "
              "approximation/preconditioner is given)"),
-    Sub(name="status_propagation", check=check_status, strategy=status_recipes, quick=1600, thorough=40000, shards=4,
+    Sub(name="status_propagation", check=check_status, strategy=status_recipes, quick=1200, thorough=40000, shards=4,
         rule="non-trivial = the controller stopped the run (at start, or after >= 1 iteration) with its own status"),
 ]
